@@ -106,6 +106,15 @@ M = [
      "        sqe.opcode = IORING_OP_READV;\n        sqe.fd = fd_;\n        sqe.off = offset_;",
      "        sqe.opcode = IORING_OP_READV;\n        sqe.fd = fd_;\n        sqe.off = 0;",
      "io_uring read_some_at ignores the offset"),
+    # ---- v0 scope / spawn under faults
+    ("m40", "C08", "include/unifex/v0/async_scope.hpp",
+     "      // we've been stopped so clean up and bail out\n      opToStart->destruct();",
+     "      // we've been stopped so clean up and bail out",
+     "v0 scope: operation of refused work connected but never destructed"),
+    ("m41", "C08", "include/unifex/v0/async_scope.hpp",
+     "    if (is_stopping(oldState) && op_count(oldState) == 1) {",
+     "    if (op_count(oldState) == 1) {",
+     "v0 scope: last finished operation sets the event even if the scope is not stopping (join completes early later)"),
 ]
 
 
